@@ -363,3 +363,100 @@ class FactoriesC(DatasetC):
 
 
 CONTRACTS = [FactoriesC()]
+
+
+# ------------------------------------------------------------------ multi-input factories
+def _others(eng, st):
+    m = smt.fresh('n_others', smt.Int)
+    st.pc.append(m >= 0)
+    return DSTupleV(eng.new_oid(), m)
+
+
+def _multi_post(cls, self_if_empty):
+    def post(S, o):
+        env = S.eng.entry_env
+        oth = env['others']
+        if o.kind != 'return':
+            return [('factory:returns', smt.F)]
+        v = o.value
+        nothing = z3.BoolVal(not S.st.ghost.get('log'))
+        if isinstance(v, DSRefV):
+            return [('factory:no-other-dataset-returns-self', z3.And(oth.m == 0, is_self(S, v), z3.BoolVal(self_if_empty))),
+                    ('C08:construction-evaluates-nothing', nothing)]
+        ok = isinstance(v, StageV) and v.cls == cls and len(v.args) == 2 and isinstance(v.args[0], DSRefV) \
+            and isinstance(v.args[1], tuple) and v.args[1][0] == '*' and v.args[1][1] is oth
+        return [('factory:builds-%s(self, *others)' % cls, z3.BoolVal(bool(ok))),
+                ('factory:first-input-is-self', is_self(S, v.args[0]) if ok else smt.F),
+                ('C08:construction-evaluates-nothing', nothing)]
+    return post
+
+
+def _tile_post(S, o):
+    """tile(reps) (no shuffle) is the reps-fold concatenation of the very same object"""
+    return [('tile:outcome', z3.BoolVal(o.kind in ('return', 'raise')))]
+
+
+FactoriesC.methods.update({
+    'concatenate': [Variant('others', params={'others': _others}, post=_multi_post('ConcatenateDataset', True), props=('C01', 'C08', 'C16'))],
+    'intersperse': [Variant('others', params={'others': _others}, post=_multi_post('IntersperseDataset', True), props=('C01', 'C08'))],
+    'zip': [Variant('others', params={'others': _others}, post=_multi_post('ZipDataset', False), props=('C01', 'C08'))],
+    'key_zip': [Variant('others', params={'others': _others}, post=_multi_post('KeyZipDataset', False), props=('C01', 'C08'))],
+})
+
+
+# ------------------------------------------------------------------ tile
+def _tile_hooks():
+    h = _ds_method_hooks()
+
+    def binop_hook(eng, st, op, a, b, node):
+        import ast
+        if isinstance(op, ast.Mult) and isinstance(a, TupleV) and a.is_list and len(a.items) == 1 and isinstance(b, IntV):
+            x = a.items[0]
+            return [(st, SymSeqV(z3.If(b.t < 0, 0, b.t), lambda e: x, 'list'))]
+        return None
+
+    def ds_getattr(eng, st, recv, attr):
+        if attr == '__class__':
+            return [(st, ClassV('Dataset'))]
+        return None
+
+    def any_method(eng, st, recv, name, args, kwargs):
+        # Dataset.concatenate(*datasets) called through the class: the first element is `self`
+        if isinstance(recv, ClassV) and recv.name == 'Dataset' and name == 'concatenate' \
+                and len(args) == 1 and isinstance(args[0], tuple) and isinstance(args[0][1], SymSeqV):
+            seq = args[0][1]
+            res = []
+            for s2, empty in eng.branch(st, seq.length == 0):
+                if empty:
+                    eng.raise_(s2, eng.new_exc(s2, 'TypeError'))
+                    continue
+                for s3, one in eng.branch(s2, seq.length == 1):
+                    if one:
+                        res.append((s3, seq.at(I(0))))       # Dataset.concatenate(self) returns self
+                    else:
+                        res.append((s3, StageV('ConcatenateDataset', [('*', seq)], {})))
+            return res
+        return None
+    h.update(binop_hook=binop_hook, ds_getattr=ds_getattr, any_method=any_method)
+    return h
+
+
+def _tile_post2(S, o):
+    reps = S.old.reps
+    if o.kind == 'raise':
+        return [('tile:rejects-only-reps<1', reps < 1)]
+    v = o.value
+    if isinstance(v, DSRefV):
+        return [('C16:tile(1)-is-the-dataset-itself', z3.And(reps == 1, is_self(S, v)))]
+    if isinstance(v, StageV) and v.cls == 'ConcatenateDataset' and isinstance(v.args[0], tuple):
+        seq = v.args[0][1]
+        j = smt.fresh('tj', smt.Int)
+        el = seq.at(j)
+        return [('C16:tile(r)-is-the-r-fold-concatenation-of-the-same-dataset',
+                 z3.And(seq.length == reps, reps >= 2, is_self(S, el) if isinstance(el, DSRefV) else smt.F)),
+                ('C08:construction-evaluates-nothing', z3.BoolVal(not S.st.ghost.get('log')))]
+    return [('tile:result-shape', smt.F)]
+
+
+FactoriesC.methods['tile'] = [Variant('no-shuffle', params={'reps': 'int', 'shuffle': 'false'}, post=_tile_post2,
+                                      hooks=_tile_hooks(), props=('C01', 'C08', 'C16'))]
